@@ -55,6 +55,7 @@ type step struct {
 	Kind   string             `json:"kind"`
 	Res    bool               `json:"res"`
 	Blooms map[string][]pitem `json:"blooms"`
+	Ser    []pitem            `json:"ser"`
 	NBits  int                `json:"nbits"`
 }
 
@@ -201,6 +202,25 @@ func roundtrip(lb *txresult.LogsBloom, kind string) (*txresult.LogsBloom, error)
 	return nil, fmt.Errorf("unknown round trip %s", kind)
 }
 
+// wantBits evaluates the symbolic bits of the items with the real hash
+func (w *world) wantBits(items []pitem, nbits int) map[int]string {
+	want := map[int]string{}
+	for _, it := range items {
+		var pre []byte
+		for _, p := range it.Pre {
+			for _, x := range p.Lit {
+				pre = append(pre, byte(x))
+			}
+			pre = append(pre, w.refBytes(p.Ref)...)
+		}
+		h := crypto.SHA3Sum256(pre)
+		for k := 0; k < nbits; k++ {
+			want[int(binary.BigEndian.Uint16(h[2*k:2*k+2]))&(txresult.LogsBloomBits-1)] = fmt.Sprintf("bit %d of item %+v", k, it.Item)
+		}
+	}
+	return want
+}
+
 // checkBits compares the real bit vector of every bloom with the predicted items
 func (w *world) checkBits(s step) (string, string, string) {
 	div := ""
@@ -316,6 +336,20 @@ func (w *world) run(steps []step) (key, what, div string) {
 			}
 			if !(w.viaRcpt && s.B != "blk") {
 				w.blooms[s.B] = n
+			}
+		case "serialize":
+			// the SAME object is serialized (possibly again, after mutations); the bytes must describe its current content
+			n, err := roundtrip(lb, s.Kind)
+			if err != nil {
+				return "bloom:serialize:" + s.Kind, fmt.Sprintf("step %d: %s serialization of bloom %s failed: %v", i, s.Kind, s.B, err), ""
+			}
+			for idx, why := range w.wantBits(s.Ser, s.NBits) {
+				if n.Bit(idx) != 1 {
+					return "bloom:staleserialization:" + s.Kind, fmt.Sprintf("step %d: the %s serialization of bloom %s lacks bit %d = %s, which the bloom holds (stale or lossy serialization)", i, s.Kind, s.B, idx, why), ""
+				}
+			}
+			if !n.Equal(lb) {
+				return "bloom:staleserialization:" + s.Kind, fmt.Sprintf("step %d: the %s serialization of bloom %s decodes to %x, the bloom is %x", i, s.Kind, s.B, n.Bytes(), lb.Bytes()), ""
 			}
 		case "contain", "query", "querylog":
 			var q *txresult.LogsBloom
